@@ -439,6 +439,23 @@ func (m *Machine) convert(x value, from, to types.Type, in ssa.Instruction) valu
 		if sl, ok := from.Underlying().(*types.Slice); ok {
 			s := x.(SliceV)
 			_, ek := basicInfo(sl.Elem())
+			if s.src != nil {
+				lo, n, byt := s.srcLo, s.len, s.srcBytes
+				return m.liftStr([]value{s.src}, func(a []value) value {
+					str := a[0].(string)
+					if byt {
+						if lo+n > len(str) {
+							return ""
+						}
+						return str[lo : lo+n]
+					}
+					rs := []rune(str)
+					if lo+n > len(rs) {
+						return ""
+					}
+					return string(rs[lo : lo+n])
+				})
+			}
 			elems := make([]value, s.len)
 			copy(elems, s.arr[s.off:s.off+s.len])
 			build := func(a []value) value {
